@@ -17,6 +17,7 @@ PROPS = {
     "C05": engine_prop("TestC05"),
     "C06": engine_prop("TestC06"),
     "C09": engine_prop("TestC09"),
+    "C11": engine_prop("TestC11"),
     "C01": {
         "level": "exploration",
         "assumptions": ENGINE_ASSUMPTIONS,
